@@ -399,33 +399,68 @@ func runReportShape(c *core.Ctx) {
 	}
 	// exceptions: Module and Stacktrace
 	exT := p.ExtNamed("github.com/getsentry/sentry-go", "Exception")
-	nExc := 0
+	// construction sites of an Exception, in BuildSentryReport's frame: a store
+	// to the Module field of an Exception there, or a call to a same-package
+	// helper that builds one and takes its Module from a parameter
+	type excSite struct {
+		block  *ssa.BasicBlock
+		pos    token.Pos
+		module ssa.Value
+	}
+	var sites []excSite
+	moduleStores := func(f *ssa.Function) []*ssa.Store {
+		var out []*ssa.Store
+		sx.EachInstr(f, func(in ssa.Instruction) {
+			st, ok := in.(*ssa.Store)
+			if !ok {
+				return
+			}
+			fa, ok := st.Addr.(*ssa.FieldAddr)
+			if !ok || exT == nil || !types.Identical(sx.Deref(fa.X.Type()), exT) || sx.FieldOf(fa).Name() != "Module" {
+				return
+			}
+			out = append(out, st)
+		})
+		return out
+	}
+	for _, st := range moduleStores(fn) {
+		sites = append(sites, excSite{st.Block(), st.Pos(), st.Val})
+	}
 	sx.EachInstr(fn, func(in ssa.Instruction) {
-		st, ok := in.(*ssa.Store)
+		call, ok := in.(*ssa.Call)
 		if !ok {
 			return
 		}
-		fa, ok := st.Addr.(*ssa.FieldAddr)
-		if !ok || exT == nil || !types.Identical(sx.Deref(fa.X.Type()), exT) {
+		h := sx.Callee(call)
+		if h == nil || h.Pkg != fn.Pkg || h == fn || h.Blocks == nil {
 			return
 		}
-		switch sx.FieldOf(fa).Name() {
-		case "Module":
-			nExc++
-			// string(domains.GetDomain(err))
-			v := st.Val
-			for i := 0; i < 3; i++ {
-				if cv, ok := v.(*ssa.Convert); ok {
-					v = cv.X
-				} else if cv, ok := v.(*ssa.ChangeType); ok {
-					v = cv.X
+		for _, st := range moduleStores(h) {
+			var mv ssa.Value
+			for i, prm := range h.Params {
+				if st.Val == ssa.Value(prm) && i < len(call.Call.Args) {
+					mv = call.Call.Args[i]
 				}
 			}
-			call, _ := v.(*ssa.Call)
-			ok2 := call != nil && sx.Callee(call) != nil && sx.Callee(call).Name() == "GetDomain" && call.Call.Args[0] == ssa.Value(fn.Params[0])
-			c.Check(ok2, "report.BuildSentryReport: Exception.Module", st.Pos(), "the domain of the reported error", "an exception's module is not the domain of the reported error")
+			sites = append(sites, excSite{call.Block(), call.Pos(), mv})
 		}
 	})
+	nExc := 0
+	for _, site := range sites {
+		nExc++
+		// string(domains.GetDomain(err))
+		v := site.module
+		for i := 0; i < 3 && v != nil; i++ {
+			if cv, ok := v.(*ssa.Convert); ok {
+				v = cv.X
+			} else if cv, ok := v.(*ssa.ChangeType); ok {
+				v = cv.X
+			}
+		}
+		call, _ := v.(*ssa.Call)
+		ok2 := call != nil && sx.Callee(call) != nil && sx.Callee(call).Name() == "GetDomain" && call.Call.Args[0] == ssa.Value(fn.Params[0])
+		c.Check(ok2, "report.BuildSentryReport: Exception.Module", site.pos, "the domain of the reported error", "an exception's module is not the domain of the reported error")
+	}
 	c.Min("sentry.Exception literals", nExc, 2)
 	// the synthetic exception (the Exception built outside the layer loop) is added exactly when no layer produced
 	// one: its construction is dominated by len(<exception list>) == 0
@@ -436,18 +471,13 @@ func runReportShape(c *core.Ctx) {
 		}
 	}
 	nSynth := 0
-	sx.EachInstr(fn, func(in ssa.Instruction) {
-		st, ok := in.(*ssa.Store)
-		if !ok || inLoop[st.Block()] {
-			return
-		}
-		fa, ok := st.Addr.(*ssa.FieldAddr)
-		if !ok || exT == nil || !types.Identical(sx.Deref(fa.X.Type()), exT) || sx.FieldOf(fa).Name() != "Module" {
-			return
+	for _, site := range sites {
+		if inLoop[site.block] {
+			continue
 		}
 		nSynth++
 		guarded := false
-		for _, l := range dominatingLits(st.Block()) {
+		for _, l := range dominatingLits(site.block) {
 			bin, isBin := l.V.(*ssa.BinOp)
 			if !isBin {
 				continue
@@ -468,9 +498,9 @@ func runReportShape(c *core.Ctx) {
 				guarded = true
 			}
 		}
-		c.Check(guarded, "report.BuildSentryReport: synthetic exception", st.Pos(), "built only when the list of exceptions is empty (len == 0)",
+		c.Check(guarded, "report.BuildSentryReport: synthetic exception", site.pos, "built only when the list of exceptions is empty (len == 0)",
 			"the synthetic exception is not guarded by 'no exception was collected' (another notion of 'has a stack' decides): trees whose stacks sit below a multi-cause node get a stack-less extra exception besides the real ones")
-	})
+	}
 	c.Check(nSynth >= 1, "report.BuildSentryReport: synthetic exception present", fn.Pos(), "an Exception is built outside the layer loop", "the synthetic exception for stack-less errors is no longer built")
 	// message write order: source location, verbose rendering, composition header
 	var order []string
@@ -777,18 +807,60 @@ func runGrpcFlow(c *core.Ctx) {
 		c.Undecided("grpc/middleware.UnaryClientInterceptor", cli.Pos(), "call of the invoker not found")
 		return
 	}
-	var dec *ssa.Call
+	// the decoding of the details may sit in a same-package helper: then the helper's result stands for the decoded
+	// error in the client's frame, provided the helper returns nothing but the decoded error (or nil)
+	var dec, innerDec *ssa.Call
 	var assertT types.Type
-	sx.EachInstr(cli, func(in ssa.Instruction) {
+	creg := regionOf(cli)
+	creg.each(func(in ssa.Instruction) {
 		switch x := in.(type) {
 		case *ssa.Call:
 			if f := sx.Callee(x); f != nil && f.Name() == "DecodeError" {
-				dec = x
+				innerDec = x
 			}
 		case *ssa.TypeAssert:
 			assertT = x.AssertedType
 		}
 	})
+	dec = innerDec
+	for hops := 0; dec != nil && dec.Parent() != cli && hops < 4; hops++ {
+		h := dec.Parent()
+		onlyDecoded := true
+		for _, r := range sx.Returns(h) {
+			if len(r.Results) != 1 {
+				onlyDecoded = false
+				continue
+			}
+			var visit func(x ssa.Value, d int)
+			seen := map[ssa.Value]bool{}
+			visit = func(x ssa.Value, d int) {
+				if seen[x] || d > 6 {
+					return
+				}
+				seen[x] = true
+				switch y := x.(type) {
+				case *ssa.Phi:
+					for _, e := range y.Edges {
+						visit(e, d+1)
+					}
+				case *ssa.Call:
+					if y != dec {
+						onlyDecoded = false
+					}
+				case *ssa.Const:
+				default:
+					onlyDecoded = false
+				}
+			}
+			visit(r.Results[0], 0)
+		}
+		sites := creg.sites[h]
+		if !onlyDecoded || len(sites) != 1 {
+			c.Undecided("grpc/middleware.UnaryClientInterceptor", h.Pos(), "the helper that decodes the details returns something besides the decoded error, or is called from several places")
+			return
+		}
+		dec = sites[0]
+	}
 	encT := p.ExtNamed(load.ModPath+"/errorspb", "EncodedError")
 	c.Check(dec != nil && assertT != nil && encT != nil && types.Identical(sx.Deref(assertT), encT), "client: detail type", cli.Pos(), "*errors.EncodedError, the type the server attaches", "the client does not look for the detail type the server attaches")
 	// returned value: phi(invoker err, decoded) — every non-decoded edge is the invoker's error itself
@@ -893,6 +965,9 @@ func runGrpcFlow(c *core.Ctx) {
 			}
 		}
 		checkUses(dec, 0)
+		if innerDec != dec {
+			checkUses(innerDec, 0)
+		}
 		c.Check(condBad == "", "client: decoded error accepted unconditionally", dec.Pos(), "every decoded EncodedError detail replaces the invoker's error",
 			"whether the decoded error is used depends on "+condBad+": for some errors (e.g. one carrying codes.OK, which travels under status Unknown) the caller gets the bare status error instead of the error the handler returned")
 	}
